@@ -66,6 +66,7 @@ theorem move_writer {c : Cfg} {s : State} (hf : c.fix.onceNoBlock = true) (hi : 
     | nil => mv .wDrain
     | cons p q => cases p <;> mv .wDrain
   | flushDisc => mv .wFlush
+  | flushConnack => mv .wFlushConnack
   | setErr =>
     cases ho : s.once with
     | running => exact move_runner hf hi ho
